@@ -37,6 +37,7 @@ type Enc struct {
 	Park  chan chan struct{} // when non-nil, Unmarshal announces itself here and waits
 	Fail  bool               // Unmarshal returns an error
 	MPark chan chan struct{} // when non-nil, Marshal announces itself here and waits
+	MFail bool               // Marshal returns an error
 }
 
 func (e *Enc) Marshal(msg drpc.Message) ([]byte, error) {
@@ -44,6 +45,9 @@ func (e *Enc) Marshal(msg drpc.Message) ([]byte, error) {
 		rel := make(chan struct{})
 		e.MPark <- rel
 		<-rel
+	}
+	if e.MFail {
+		return nil, TagErr{"marshal", 0}
 	}
 	switch m := msg.(type) {
 	case []byte:
